@@ -57,7 +57,7 @@ def main(tier):
         else:
             rep.violation('c08:hash256:' + hash_role((irsA, irdA), (irsB, irdB), c01.construct_of(srcA)), f'hash256 differs between the program and its rewrite: `{srcA[-200:]}` vs `{srcB[-260:]}`',
                           {'cmd': 'hash', 'a': srcA, 'b': srcB})
-        defs = getattr(a, 'defs', {})
+        defs = c01.ALL_DEFS
         job = valcheck.make_job(f'p{i}', a.spec, defs, PID, tier, module=pathsA['inst'], parser=f'Root{i}', hostile=False)
         job['moduleB'] = pathsB['inst']
         job['parserB'] = f'Root{i}'
@@ -139,6 +139,8 @@ def hash_role(irA, irB, construct):
         return json.dumps(inline_refs(sa, da, flatten, sort), sort_keys=True), json.dumps(inline_refs(sb, db, flatten, sort), sort_keys=True)
     a, b = j(False, False)
     if a == b:
+        if '"name": "rec"' in a:
+            return 'same-ir-recursive'       # recursive types: cycle ids are numbered along the reference path from the root
         return 'same-ir:' + construct
     a, b = j(False, True)
     if a == b:
